@@ -74,7 +74,7 @@ impl PreProcessContext {
 
         path = self.replace_placeholders(&path, workspace_str);
 
-        if path.starts_with('~') {
+        if let Some(rest) = home_relative(&path) {
             let home_dir = match dirs::home_dir() {
                 Some(path) => path,
                 None => {
@@ -82,7 +82,7 @@ impl PreProcessContext {
                     return path;
                 }
             };
-            path = home_dir.join(&path[2..]).to_string_lossy().to_string();
+            path = home_dir.join(rest).to_string_lossy().to_string();
         } else if path.starts_with("./") {
             path = self
                 .workspace
@@ -162,6 +162,16 @@ impl PreProcessContext {
             }
         })
         .to_string()
+    }
+}
+
+/// `~` and `~/rest` name the home directory and a path below it; returns that `rest`.
+fn home_relative(path: &str) -> Option<&str> {
+    let rest = path.strip_prefix('~')?;
+    if rest.is_empty() {
+        Some(rest)
+    } else {
+        rest.strip_prefix(['/', '\\'])
     }
 }
 
